@@ -13,7 +13,8 @@ TECHNIQUE = ("runtime monitoring under fault injection: (a) a failing expression
              "of a healthy run raises the evaluator's own exception, for every k")
 RULE = ("(a) templates: position in {input, vars, action, task input, with.items, with.concurrency, delay, retry.when, "
         "retry.count, retry.delay, when, publish, output} x kind in {missing key, wrong type, unknown function, division "
-        "by zero, undefined variable (assigned on another path only)} x {YAQL, Jinja} x point in {start, mid-run, after a "
+        "by zero, undefined variable (assigned on another path only)} x {YAQL, Jinja; bare, two expressions embedded in "
+        "text, inside a Jinja block statement, beside a Jinja raw block} x point in {start, mid-run, after a "
         "join, loop iteration 2, after pause/resume, during rerun}; (b) failpoints: for generated definitions the healthy "
         "run's evaluator calls are counted and the run is repeated with the k-th call raising, for every k (sampled "
         "above a cap); asserted: no exception leaves an API call, an error entry records the failure (naming the task "
@@ -27,9 +28,25 @@ POSITIONS = ["input", "vars", "action", "tinput", "items", "concurrency", "delay
 KINDS = ["missing_key", "wrong_type", "unknown_fn", "div_zero", "undefined", "string_value"]
 STRING_VALUE_POSITIONS = ("items", "concurrency", "delay", "retry_count", "retry_delay")
 POINTS = ["start", "mid", "join", "loop2", "resume", "rerun", "canceling"]
+# language x form: a bare expression, two expressions embedded in text, a Jinja block statement around the
+# expression, a Jinja raw block beside it
+LANGS = ["yaql", "jinja", "yaql_text", "jinja_text", "jinja_block", "jinja_raw"]
 
 
 def bad_expr(kind, lang, boolean=False, loop=False):
+    lang, _, form = lang.partition("_")
+    e = _bad_expr(kind, lang, boolean, loop)
+    if form == "text":
+        other = "<% ctx(xs) %>" if lang == "yaql" else "{{ ctx('xs') }}"
+        return "pre %s mid %s post" % ((e, other) if kind == "missing_key" else (other, e))
+    if form == "block":
+        return "{%% if ctx('xs') %%}%s{%% endif %%}" % e
+    if form == "raw":
+        return "{%% raw %%}{{ kept_literally }}{%% endraw %%} %s" % e
+    return e
+
+
+def _bad_expr(kind, lang, boolean=False, loop=False):
     if loop:
         body = "1 / (1 - ctx(i))" if lang == "yaql" else "1 / (1 - ctx('i'))"
         body = "(%s) + ctx(zero_mk)" % body if lang == "yaql" else "(%s) + ctx('zero_mk')" % body
@@ -53,6 +70,10 @@ def template(position, kind, lang, point):
     wf_level = position in ("input", "vars", "output")
     if wf_level and point != "start":
         return None
+    form = lang.partition("_")[2]
+    if form and (kind not in ("missing_key", "div_zero") or point not in ("start", "mid", "join")):
+        return None
+    flang, lang = lang, lang.partition("_")[0]
     loop = point == "loop2"
     if loop and position in ("action", "items", "input", "vars", "output"):
         return None
@@ -64,7 +85,7 @@ def template(position, kind, lang, point):
         return None
     if point == "canceling" and position not in ("when", "publish", "retry_when"):
         return None  # nothing is rendered or started once a cancel was requested
-    bad = bad_expr(kind, lang, boolean=position in ("when", "retry_when"), loop=loop)
+    bad = bad_expr(kind, flang, boolean=position in ("when", "retry_when"), loop=loop)
     ok = "<% succeeded() %>" if lang == "yaql" else "{{ succeeded() }}"
     xs = "<% ctx(xs) %>" if lang == "yaql" else "{{ ctx('xs') }}"
     wf = {"version": 1.0,
@@ -261,7 +282,7 @@ def drive(run, plan, pol):
 def templates(job):
     out = dict(evaluations=0, nontrivial=set(), violations=[], samples=[], counters={}, sets={})
     C = out["counters"]
-    combos = [(p, k, l, pt) for p in POSITIONS for k in KINDS for l in ("yaql", "jinja") for pt in POINTS]
+    combos = [(p, k, l, pt) for p in POSITIONS for k in KINDS for l in LANGS for pt in POINTS]
     only = job.get("only")
     for idx in ([only[0]] if only else range(job["lo"], job["hi"])):
         if idx >= len(combos):
@@ -402,14 +423,15 @@ def nontrivial(run, m):
 
 
 def jobs(tier, seed):
-    ncomb = len(POSITIONS) * len(KINDS) * 2 * len(POINTS)
+    ncomb = len(POSITIONS) * len(KINDS) * len(LANGS) * len(POINTS)
     js = batches("templates", ncomb, scale(tier, 60, 40), name="templates")
     if tier == "quick":
         # a rotating third of the template space, plus (always) every template of the kinds / points whose
         # containment depends on a guard other than the evaluator's own exception type
         js = [j for i, j in enumerate(js) if i % 3 == seed % 3] + [j for i, j in enumerate(js) if i % 3 != seed % 3][:2]
-        combos = [(p, k, l, pt) for p in POSITIONS for k in KINDS for l in ("yaql", "jinja") for pt in POINTS]
-        always = [i for i, c in enumerate(combos) if c[1] == "string_value" or c[3] == "canceling" or c[0].startswith("retry_")]
+        combos = [(p, k, l, pt) for p in POSITIONS for k in KINDS for l in LANGS for pt in POINTS]
+        always = [i for i, c in enumerate(combos) if c[1] == "string_value" or c[3] == "canceling" or c[0].startswith("retry_")
+                  or ("_" in c[2] and c[3] == "mid")]
         js += [dict(fn="templates", lo=i, hi=i + 1, name="templates") for i in always]
     P = dict(p_items=0.2, p_retry=0.25, p_ainput=0.5, p_pub=0.8, p_expr_count=0.5, p_expr_conc=0.5, p_delay=0.1, nmax=6)
     js += batches("failpoints", scale(tier, 60, 1500), scale(tier, 4, 30), gen="mix", p_loop=0.25, P=P, gseed=seed,
